@@ -25,7 +25,7 @@ import itertools
 import z3
 
 __all__ = [
-    "Engine", "Hooks", "Rec", "Template", "Opaque", "SliceV", "Raise", "Unsupported", "PathResult", "is_sym",
+    "Engine", "Hooks", "Rec", "Template", "SymRange", "SymList", "Opaque", "SliceV", "Raise", "Unsupported", "PathResult", "is_sym",
     "fresh_int", "fresh_bool", "fresh_real",
 ]
 
@@ -120,6 +120,22 @@ def _concrete(v, depth=0):
 
 PYTYPES = {"tuple": tuple, "set": set, "list": list, "str": str, "int": int, "dict": dict, "float": float,
            "bool": bool, "bytes": bytes, "frozenset": frozenset}
+
+
+class SymRange:
+    """range(a, b, c) with symbolic bounds"""
+
+    def __init__(self, a, b, c):
+        self.a, self.b, self.c = a, b, c
+
+
+class SymList:
+    """a list of symbolic length described by its generic element: for every j with 0 <= j < count the j-th
+    element is ``elem`` (a value that mentions the variable ``j``); ``side`` are the constraints (definitional or
+    implied) collected while the element expression was evaluated"""
+
+    def __init__(self, j, count, elem, side):
+        self.j, self.count, self.elem, self.side = j, count, elem, side
 
 
 class SliceV:
@@ -621,6 +637,34 @@ class Engine:
             raise
         self.hooks.with_exit(self, ctx, None, env)
 
+    def symlist(self, rng, target, elt, env):
+        """[elt for target in range(a, b, c)] with symbolic bounds: the generic element, evaluated fork-free"""
+        from .dsl import Defs
+        from speclib.slices import len_range
+        if is_sym(rng.c):
+            if self.branch(rng.c == 0):
+                raise Raise("ValueError")
+        j = fresh_int("j")
+        Defs.push()
+        count = len_range(rng.a, rng.b, rng.c)
+        defs, nz = Defs.pop()
+        for c_ in defs:
+            self.pc.append(c_)
+        mark = len(self.pc)
+        self.pc.append(z3.And(0 <= j, j < count))
+        local = dict(env)
+        local[target] = rng.a + j * rng.c
+        self.nofork += 1
+        try:
+            elem = self.eval(elt, local)
+        except _ForkInPure:
+            raise Unsupported("comprehension element forks")
+        finally:
+            self.nofork -= 1
+        side = self.pc[mark:]
+        del self.pc[mark:]
+        return SymList(j, count, elem, side)
+
     def concrete_iter(self, it):
         if isinstance(it, (list, tuple)):
             return list(it)
@@ -700,6 +744,15 @@ class Engine:
     def binop(self, op, l, r):
         if isinstance(l, (list, tuple, str)) and not is_sym(l) and isinstance(op, ast.Add) and type(l) is type(r):
             return l + r
+        if isinstance(l, (set, frozenset)) and isinstance(r, (set, frozenset)) and _concrete(l) and _concrete(r):
+            if isinstance(op, ast.BitAnd):
+                return l & r
+            if isinstance(op, ast.BitOr):
+                return l | r
+            if isinstance(op, ast.Sub):
+                return l - r
+            if isinstance(op, ast.BitXor):
+                return l ^ r
         if isinstance(op, ast.Add) and (isinstance(l, Template) or isinstance(r, Template)):
             return Template([l, r])
         if isinstance(op, ast.Add):
@@ -947,7 +1000,10 @@ class Engine:
             if len(e.generators) != 1:
                 raise Unsupported("nested comprehension")
             g = e.generators[0]
-            items = self.concrete_iter(self.eval(g.iter, env))
+            itv = self.eval(g.iter, env)
+            if isinstance(itv, SymRange) and not g.ifs and isinstance(g.target, ast.Name):
+                return self.symlist(itv, g.target.id, e.elt, env)
+            items = self.concrete_iter(itv)
             if items is None:
                 raise Unsupported("comprehension over symbolic iterable")
             out = []
@@ -1053,6 +1109,8 @@ class Engine:
                     raise Raise("ValueError")
             if isinstance(obj, dict) and f.attr in ("items", "keys", "values", "copy", "update", "setdefault"):
                 return getattr(obj, f.attr)(*args, **kw)
+            if isinstance(obj, str) and f.attr == "join" and len(args) == 1 and isinstance(args[0], SymList):
+                return ("join", obj, args[0])
             if isinstance(obj, str) and f.attr == "join" and len(args) == 1 and isinstance(args[0], (list, tuple)) \
                     and not all(isinstance(a, str) for a in args[0]):
                 parts = []
@@ -1150,6 +1208,15 @@ class Engine:
                 if _concrete(v):
                     return isinstance(v, ts)
             return _FAIL
+        if n == "range" and 1 <= len(args) <= 3 and not kw:
+            a_, b_, c_ = (0, args[0], 1) if len(args) == 1 else (args[0], args[1], 1) if len(args) == 2 else args
+            if not any(is_sym(x) for x in (a_, b_, c_)):
+                return range(a_, b_, c_)
+            return SymRange(a_, b_, c_)
+        if n == "enumerate" and len(args) == 1 and isinstance(args[0], (list, tuple)):
+            return list(enumerate(args[0]))
+        if n == "zip" and all(isinstance(a_, (list, tuple)) for a_ in args):
+            return list(zip(*args))
         if n == "tuple" and len(args) == 1 and isinstance(args[0], (tuple, list)):
             return tuple(args[0])
         if n == "list" and len(args) == 1 and isinstance(args[0], (tuple, list)):
